@@ -48,10 +48,26 @@ pub fn judge(ops: &dyn TypeOps, b: &[u8], exp: &[Value], props: &Props, r: &mut 
     r.count("hostile");
     crate::runner::progress(b);
     crate::alloc::reset();
+    crate::alloc::set_poison(0xA5);
     let t0 = Instant::now();
     let got = ops.decode(b);
     let ms = t0.elapsed().as_millis();
     let (max_req, peak) = crate::alloc::snapshot();
+    crate::alloc::set_poison(0);
+    // a value built only from initialised data taken from the input does not depend on what fresh memory holds
+    if let Outcome::Ok(d) = &got {
+        if ms < 200 {
+            crate::alloc::set_poison(0x5A);
+            let again = ops.decode(b);
+            crate::alloc::set_poison(0);
+            r.count("decoded_twice_with_different_fresh_memory");
+            let same = matches!(&again, Outcome::Ok(d2) if d2.v == d.v && d2.left == d.left);
+            if !same {
+                r.finding("uninit", &["C05", "C19"], json!({"ty": ops.rust_name(), "bytes": b,
+                    "what": "the decoded value depends on the contents of fresh heap memory", "first": d.v, "second": crate::ops::outcome_json(&again, |d| json!({"v": d.v, "left": d.left}))}));
+            }
+        }
+    }
     let gj = crate::ops::outcome_json(&got, |d| json!({"v": d.v, "left": d.left}));
     if let Outcome::Panic(m) = &got {
         let mut p = vec!["C05"];
